@@ -171,3 +171,17 @@ import glob as _glob, importlib as _importlib, os as _os
 for _f in sorted(_glob.glob(_os.path.join(_os.path.dirname(__file__), "props_*.py"))):
     _m = _importlib.import_module("checklib." + _os.path.basename(_f)[:-3])
     PROPS.update(getattr(_m, "PROPS", {}))
+
+# runs and theorem files contributed to a property by another group: props_<group>.py may define
+# EXTRA_RUNS = {"Cxx": [run, ...]} and EXTRA_PROPERTY_FILES = {"Cxx": ["Cxx_other", ...]}
+for _f in sorted(_glob.glob(_os.path.join(_os.path.dirname(__file__), "props_*.py"))):
+    _m = _importlib.import_module("checklib." + _os.path.basename(_f)[:-3])
+    for _pid, _runs in getattr(_m, "EXTRA_RUNS", {}).items():
+        if _pid in PROPS:
+            PROPS[_pid]["runs"] = list(PROPS[_pid]["runs"]) + [r for r in _runs if r not in PROPS[_pid]["runs"]]
+    for _pid, _files in getattr(_m, "EXTRA_PROPERTY_FILES", {}).items():
+        if _pid in PROPS:
+            PROPS[_pid]["extra_property_files"] = list(PROPS[_pid].get("extra_property_files", [])) + list(_files)
+    for _pid, _t in getattr(_m, "EXTRA_TRUSTED", {}).items():
+        if _pid in PROPS:
+            PROPS[_pid]["trusted"] = list(PROPS[_pid].get("trusted", [])) + list(_t)
